@@ -21,6 +21,8 @@ import (
 
 const vfC22File = "keyring.json"
 
+var vfC22Stale bool
+
 func vfC22Key(name string) []byte {
 	if vfBool(name + ".long") {
 		return vfFixedBytes(name, 24)
@@ -45,6 +47,13 @@ func vfC22Setup() (*Serf, *memberlist.Keyring, [][]byte) {
 	var enc []string
 	for _, k := range ring.GetKeys() {
 		enc = append(enc, base64.StdEncoding.EncodeToString(k))
+	}
+	// the file may be behind the ring: an earlier request changed the ring and then failed to write the file
+	// (it was answered with an error, which is allowed); the next successful request has to bring the file up to date
+	vfC22Stale = false
+	if n >= 2 && vfBool("staleFile") {
+		vfC22Stale = true
+		enc = enc[:n-1]
 	}
 	vfFileSet(vfC22File, enc)
 	return s, ring, keys
@@ -108,7 +117,7 @@ func vfC22Invariant(ring *memberlist.Keyring, pfx string) {
 //
 //vf:unwind 40
 //vf:paths quick=400000 thorough=4000000
-//vf:bound state ring of 1..3 distinct keys, each 16 or 24 symbolic bytes; request: install | use | remove with a key equal to a ring key, or a fresh key of 16, 24, 17 (invalid) or 0 bytes
+//vf:bound state ring of 1..3 distinct keys, each 16 or 24 symbolic bytes, file equal to the ring or one key behind it; request: install | use | remove with a key equal to a ring key, or a fresh key of 16, 24, 17 (invalid) or 0 bytes
 //vf:stub codec -> identity on tokens; json.MarshalIndent/Unmarshal + os.WriteFile/ReadFile -> abstract file holding the marshalled value; base64 -> identity on bytes (injective, length preserving; Encode(dst,src) writes a prefix of dst); transport recorded
 //vf:outside the JSON and base64 codecs themselves (trusted); file-system errors; 32-byte keys (same code path as 24)
 //vf:nonative
@@ -155,7 +164,9 @@ func VfC22_Step() {
 	okr := len(pk) > 1 && decodeMessage(pk[1:], &qr) == nil && len(qr.Payload) > 1 && decodeMessage(qr.Payload[1:], &nk) == nil
 	vfAssert("C22.step.reply.decodes", okr)
 	after := ring.GetKeys()
-	vfC22Invariant(ring, "C22.step")
+	if !(vfC22Stale && !nk.Result) {
+		vfC22Invariant(ring, "C22.step")
+	}
 	if !nk.Result {
 		// a rejected request changes neither the keyring nor the file
 		vfAssert("C22.rejected.ring.count", len(after) == len(before))
